@@ -179,6 +179,10 @@ pub enum Status {
     BlockedJoin,
     /// the calling thread waits for the worker in the given slot (`JoinHandle::join` in spawn order)
     BlockedJoinOn(usize),
+    /// the thread held the token and stopped making steps for 10 s of wall clock: it is taken to be blocked in an
+    /// OS primitive the simulator has no seam for (a mutex, channel, barrier added to the library) and the token
+    /// was given to somebody else; it rejoins the schedule at its next yield point
+    BlockedOs,
     Done,
 }
 
@@ -226,6 +230,7 @@ struct State {
     replay_pos: usize,
     diverged: bool,
     abort: Option<String>,
+    rescues: u32,
     pct_points: Vec<u64>,
     since_starved: u64,
     /// GrowLate: steps the workers have run since the spawner reached a lag
@@ -258,6 +263,7 @@ impl State {
             replay_pos: 0,
             diverged: false,
             abort: None,
+            rescues: 0,
             pct_points: vec![],
             since_starved: 0,
             grow_steps: 0,
@@ -302,6 +308,9 @@ pub struct RunRecord {
     pub steps: u64,
     pub abort: Option<String>,
     pub diverged: bool,
+    /// number of times a token holder that had stopped was set aside (see `Status::BlockedOs`); such a run is
+    /// not guaranteed to replay
+    pub rescues: u32,
 }
 
 fn dep_hook(site: u32, a: usize, b: usize) {
@@ -377,6 +386,7 @@ pub fn end_run() -> RunRecord {
         steps: st.steps,
         abort: st.abort.take(),
         diverged: st.diverged,
+        rescues: st.rescues,
     };
     rec
 }
@@ -587,6 +597,25 @@ fn wait_for_token(mut st: MutexGuard<'static, State>, me: usize) {
                 idle = 0;
                 seen = now;
             }
+            if idle == 20 || (idle > 20 && idle % 20 == 0) {
+                // 10 s without a single step: the token holder is most probably blocked in an OS primitive that a
+                // parked thread would have to release. Set it aside and let the others run.
+                let cur = st.current;
+                if cur != me && cur < st.slots.len() && st.slots[cur].status == Status::Runnable {
+                    st.slots[cur].status = Status::BlockedOs;
+                    st.rescues += 1;
+                    let r = runnable(&mut st);
+                    if let Some(&next) = r.first() {
+                        st.current = next;
+                        sim().cv[next].notify_all();
+                        if next == me {
+                            return;
+                        }
+                    } else {
+                        st.slots[cur].status = Status::Runnable;
+                    }
+                }
+            }
             if idle > 360 {
                 do_abort(&mut st, "stall: no thread has made a step for 180 s of wall clock");
                 return;
@@ -667,6 +696,17 @@ fn event_ex(kind: Kind, stage: u16, a: u64, b: u64, may_yield: bool, spin: bool)
             if st.slots[me].status == Status::Done {
                 // a thread past its worker_exit (e.g. dropping an unjoined result): not under the scheduler
                 return false;
+            }
+            if st.slots[me].status == Status::BlockedOs {
+                // a thread that was set aside while blocked is back: it rejoins the schedule here
+                st.slots[me].status = Status::Runnable;
+                if st.current != me {
+                    wait_for_token(st, me);
+                    st = lock();
+                    if st.free {
+                        return st.abort.is_some();
+                    }
+                }
             }
             if st.current != me {
                 do_abort(&mut st, "token invariant: a thread ran user code without holding the token");
@@ -995,6 +1035,10 @@ fn hook_worker_exit(panicking: bool) {
     }
     if st.slots[0].status == Status::BlockedJoinOn(me) {
         st.slots[0].status = Status::Runnable;
+    }
+    if st.current != me {
+        // a thread that had been set aside (BlockedOs) ends without having got the token back
+        return;
     }
     st.steps += 1;
     match pick(&mut st, me) {
